@@ -24,6 +24,7 @@ Lemma time_facts :
   zlen (ts_tracked0 ts) = N + 1.
 Proof.
   pose proof (v_time ts V) as H. unfold time_ok in H.
+  apply andb_true_iff in H as [H _]. apply andb_true_iff in H as [H _].
   apply andb_true_iff in H as [H H4]. apply andb_true_iff in H as [H H3]. apply andb_true_iff in H as [H1 H2].
   split; [fold N; lia|]. split; [|split; [|fold N; lia]].
   - intros u Hu. unfold tm. rewrite forallb_forall in H2.
